@@ -43,9 +43,10 @@ ASSUMPTIONS = [
     "PhaseGradientGate(n, t): docstring omits t; textbook form omega^(x*t) is used",
 ]
 SENSITIVITY = [
-    "YPow eigen-component sign", "CZPow projectors swapped", "ISwapPow eigenphases exchanged", "FSim b sign", "depolarize weight",
-    "QFT without_reverse inverted", "GPI2 phase sign (vendor)", "XPowGate qudit root", "PhasedXZ half-integer fast path",
-    "AmplitudeDamping Kraus transposed", "SYC phi (vendor)", "CCX projector on wrong control state",
+    "YPow eigen-component sign", "CZPow projectors swapped", "ISwapPow eigenphases exchanged", "FSim b sign", "depolarize weight p/4^n",
+    "QFT without_reverse inverted", "ionq MS middle phase sign (vendor)", "XPowGate qudit root conjugated", "PhasedXZ half-integer fast path",
+    "GeneralizedAmplitudeDamping M3 transposed", "CCX eigenprojector on wrong block", "PhasedFSim chi sign",
+    "RandomGateChannel weights swapped", "ionq ZZ sign (vendor)", "cphase helper rads->half turns factor",
 ]
 
 TOL = 1e-8
